@@ -435,6 +435,12 @@ def large_n_probes(tier):
         yield {"cls": "DiskRevolve", "n": n, "s": 2, "c8": [8, 16, 16, 8], "passes": 1}
         yield {"cls": "PeriodicDiskRevolve", "n": n, "s": 2, "c8": [8, 8, 16, 16], "passes": 1}
         yield {"cls": "HRevolve", "n": n, "s": 2, "d": 2, "c8": [8, 8, 16, 16], "passes": 1}
+        # a single unit: the same checkpoint is re-read n-1 times (counters, repeated Copy)
+        yield {"cls": "Revolve", "n": n, "s": 1, "c8": [8, 8, 16, 16], "passes": 1}
+        yield {"cls": "HRevolve", "n": n, "s": 1, "d": 0, "c8": [8, 8, 16, 16], "passes": 1}
+        yield {"cls": "DiskRevolve", "n": n, "s": 1, "c8": [8, 8, 8000, 8000], "passes": 1}
+        yield {"cls": "Multistage", "n": n, "ram": 1, "disk": 0, "traj": "maximum", "passes": 1}
+        yield {"cls": "Mixed", "n": n, "s": 1, "storage": "DISK", "passes": 1}
 
 
 # --------------------------------------------------------------------------
